@@ -456,9 +456,10 @@ def host_pool(domain):
 
 
 def drain(n):
-    ops = [("run", 1)]
+    """iterations first (refusals, late failures and acceptances settle without the clock), then n+1 time-outs"""
+    ops = [("run", 3)]
     for _ in range(n + 1):
-        ops += [("clock", TIMEOUT + 1), ("run", 2)]
+        ops += [("clock", TIMEOUT + 1), ("run", 3)]
     return ops
 
 
@@ -613,9 +614,9 @@ def classify(s, canon):
     m = re.search(r"R=(-?\d+)", canon)
     if m and m.group(1) != "0":
         k.append("rc" + m.group(1))
-    if "S=010" in canon:
+    if re.search(r" H\d+:", canon) or "E0:raw_connect" in canon or "TLS:start=ok" in canon:
         k.append("connected")
-    if "S=100" in canon:
+    elif "S=100" in canon:
         k.append("pending")
     return "+".join(k) or "other"
 
